@@ -491,6 +491,9 @@ def get_fn_arity(f):
             if isinstance(f.args, list):
                 for q in f.args:
                     x.update(_e(q, level=1))
+            elif f.args is not None:
+                # the single operand of a monadic operator is stored bare, not in a list
+                x.update(_e(f.args, level=1))
         elif isinstance(f, list):
             x = set()
             for q in f:
